@@ -884,7 +884,7 @@ class TunnelCommunity(Community):
 
             exit_socket = self.exit_sockets.get(request.from_circuit_id)
             # The circuit id may have been handed to another peer since the extend was requested.
-            if exit_socket is None or exit_socket.hop.peer != request.peer:
+            if exit_socket is None or exit_socket.hop.peer is not request.peer:
                 self.logger.info("Created for unknown exit socket %s", request.from_circuit_id)
                 return
             if (request.to_circuit_id in self.circuits or request.to_circuit_id in self.relay_from_to
